@@ -152,6 +152,12 @@ def gen_outcomes(rnd):
     mode = rnd.choice(["plain", "cancel", "timeout", "racing_stop", "nonevent", "hostile", "bg_stream", "fail"])
     spec["meta"]["mode"] = mode
     steps = {s["name"]: s for s in spec["steps"]}
+    if rnd.random() < 0.3:
+        # the run ends with a user-defined StopEvent subclass (typed output)
+        for a in steps["join"]["acts"]:
+            if a["k"] == "ret" and a.get("type") == "StopEvent":
+                a["type"] = "Done"
+        spec["meta"]["custom_stop"] = True
     if mode in ("cancel", "timeout") and rnd.random() < 0.5:
         for nm in ("work1", "work2", "tap"):
             if nm in steps:
